@@ -403,19 +403,22 @@ class H2Protocol:
     async def _create_stream(self, request: h2.events.RequestReceived) -> None:
         raw_path = b""  # A plain CONNECT request has no :path
         protocol = None
+        raw_method = b""
         for name, value in request.headers:
             if name == b":method":
-                method = value.decode("ascii").upper()
+                raw_method = value
             elif name == b":path":
                 raw_path = value
             elif name == b":protocol":
                 protocol = value
 
         try:
+            method = raw_method.decode("ascii").upper()
             raw_path.decode("ascii")
         except UnicodeDecodeError:
-            # The request target must be ASCII (RFC 9113 8.3.1, RFC
-            # 3986), only this stream is at fault.
+            # The method is a token and the request target must be
+            # ASCII (RFC 9110 9.1, RFC 9113 8.3.1, RFC 3986), only
+            # this stream is at fault.
             self.connection.reset_stream(
                 request.stream_id, error_code=h2.errors.ErrorCodes.PROTOCOL_ERROR
             )
